@@ -1,5 +1,6 @@
 import MobiusModel.Authz
 import MobiusModel.Generated.Handlers
+import MobiusModel.Generated.AccessGuards
 import MobiusModel.Generated.Consts
 import MobiusModel.Spec.Tables
 /-!
@@ -135,5 +136,17 @@ theorem guards_precede_effects :
 
 /-- Both reply constructors mark the transaction as a reply to the request and address the requester. -/
 theorem reply_constructors : ∀ c ∈ Generated.replyCtors, c.2 = "IsReply=true ID=true ClientID=true" := by decide
+
+/-- Every lack-of-privilege error reply in the source is a denial of the model: same text, and the constant
+    tested is the privilege the model attributes to that denial (the two amplification messages and the
+    protected-target message belong to C06). -/
+theorem deny_messages_are_the_models :
+    ∀ d ∈ Generated.denyMessages, d.2.1 = "i" ∨ d.2.1 = "AccessCannotBeDiscon" ∨
+      (DenyMsg.all.any fun m => m.source == d.2.2 && Generated.accessConsts.lookup d.2.1 == some m.priv) = true := by
+  decide
+
+/-- … and every denial of the model occurs in the source. -/
+theorem model_denials_occur_in_source :
+    ∀ m ∈ DenyMsg.all, (Generated.denyMessages.any fun d => d.2.2 == m.source) = true := by decide
 
 end Mobius.C05
